@@ -198,11 +198,12 @@ func (c *ElasticIndexClient) doBulkIndex(requests []*eventIndexRequest, retryCou
 		}
 	}
 
+	// the response has been handled and every document answered; a deadline that expired meanwhile is only counted,
+	// returning an error here would make the caller send and answer the whole batch again
 	select {
 	default:
 	case <-ctx.Done():
 		c.metrics.BulkTimeouts.Inc()
-		return ctx.Err()
 	}
 
 	return nil
